@@ -35,6 +35,18 @@ func replayHistory(d *driver, c *ctl, frames []bool) ([]wop, error) {
 	return ops, nil
 }
 
+// drain flushes the requests still asleep in cond.Wait(): hooks pass through, and enough
+// segment rotations are written for every pending request to be answered or to expire
+// (keeps the number of parked goroutines, hence the cost of state inspection, small).
+func drain(d *driver, c *ctl) {
+	c.drain.Store(true)
+	for i := 0; i < 12; i++ {
+		if d.writeFrame(true) != nil {
+			break
+		}
+	}
+}
+
 func hasContentSnap(cfg mcfg, s snapStream) bool {
 	if cfg.Variant == "FMP4" {
 		return s.Len >= 2
@@ -100,7 +112,9 @@ func runSeq(sc scenario, work string) (res result) {
 		probes = append(probes, "("+rq.coq()+", "+o.pout(rq)+")")
 		if rq.Kind == "media" {
 			hc := hasContentSnap(sc.Cfg, snap.Streams[rq.Stream])
-			res.oracleMedia(sc, rq, &o, refs[rq.Stream], hc, "quiescent state")
+			one := sc // the failing input is the history with this one request
+			one.Probes = []areq{rq}
+			res.oracleMedia(one, rq, &o, refs[rq.Stream], hc, "quiescent state")
 			mr := classifyMedia(rq.Query)
 			if mr.ok && hc {
 				switch {
@@ -137,6 +151,7 @@ func runSeq(sc scenario, work string) (res result) {
 	for i := 0; i < n400; i++ {
 		res.tags = append(res.tags, "probe:400")
 	}
+	drain(d, c)
 	d.m.Close()
 	return
 }
@@ -158,6 +173,10 @@ type phase struct {
 	progress int
 	res      *result
 	leakSeen bool
+	// while several woken requesters run, the oracle (which needs the mutex for its reference
+	// snapshot) is postponed until they have all settled; the state does not change meanwhile
+	deferOracle bool
+	deferred    []func()
 }
 
 func (p *phase) snapRefs() (snapshot, []*aplaylist, error) {
@@ -206,7 +225,7 @@ func (p *phase) onReqEvent(i int, point string, when string) error {
 		}
 		o.Waits, o.Stamp = w, p.progress
 		delete(p.sleeping, i)
-		p.oracleAt(i, when)
+		p.oracleSoon(i, when)
 	case strings.HasPrefix(point, "wait:"):
 		if err := p.c.intoWait(p.acts[i]); err != nil {
 			return err
@@ -214,11 +233,19 @@ func (p *phase) onReqEvent(i int, point string, when string) error {
 		o.Class = "waiting"
 		o.Waits++
 		p.sleeping[i] = true
-		p.oracleAt(i, when)
+		p.oracleSoon(i, when)
 	default:
 		return fmt.Errorf("requester %d: unexpected hook %q", i, point)
 	}
 	return nil
+}
+
+func (p *phase) oracleSoon(i int, when string) {
+	if p.deferOracle {
+		p.deferred = append(p.deferred, func() { p.oracleAt(i, when) })
+		return
+	}
+	p.oracleAt(i, when)
 }
 
 // property oracle at the moment requester i answered or went to sleep (the writer is parked)
@@ -290,6 +317,14 @@ func (p *phase) settle(woken []int, writerPoint string, when string) error {
 		p.out[i].Class = "woken"
 	}
 	needWriter := writerPoint != ""
+	p.deferOracle = true
+	defer func() {
+		p.deferOracle = false
+		for _, f := range p.deferred {
+			f()
+		}
+		p.deferred = nil
+	}()
 	for len(pending) > 0 || needWriter {
 		var watch []*actor
 		for i := range pending {
@@ -315,9 +350,16 @@ func (p *phase) settle(woken []int, writerPoint string, when string) error {
 			if err := p.onReqEvent(i, wr.ev.point, when); err != nil {
 				return err
 			}
-		case wr.blocked == "sync.Mutex.Lock":
+		case wr.blocked != "":
 			for i := range pending {
-				p.out[i].Class = "lockblocked"
+				if wr.states[i] == "sync.Cond.Wait" {
+					// it was not woken at all (no Broadcast reached it): still asleep
+					p.out[i].Class = "waiting"
+					p.sleeping[i] = true
+					p.oracleSoon(i, when+" (not woken)")
+				} else {
+					p.out[i].Class = "lockblocked"
+				}
 				delete(pending, i)
 			}
 		default:
@@ -498,9 +540,8 @@ func runSched(sc scenario, work string) (res result) {
 	}
 	res.nontriv = nwait >= 1 && len(p.prog) >= 1
 	res.tags = append(res.tags, "sched", fmt.Sprintf("sched:requesters=%d", len(sc.Reqs)))
-	// leave: Close the muxer from the writer goroutine (its close hook is disabled); sleepers
-	// that do not come back are abandoned with the muxer
 	close(p.cmds)
+	drain(p.d, p.c)
 	return
 }
 
@@ -535,6 +576,7 @@ func runEvict(sc scenario, work string) (res result) {
 	res.nontriv = true
 	res.tags = append(res.tags, "evict")
 	close(p.cmds)
+	drain(p.d, p.c)
 	return
 }
 
